@@ -237,6 +237,11 @@ def setup_parser() -> argparse.ArgumentParser:  # noqa: D103
     return parser
 
 
+def _one_line(err: Exception) -> str:
+    """Return the message of _err_ with any line breaks escaped."""
+    return "\\n".join(str(err).splitlines())
+
+
 def handle_path_command(args: argparse.Namespace) -> None:  # noqa: PLR0912
     """Handle the `path` sub command."""
     # Empty string is OK.
@@ -253,23 +258,23 @@ def handle_path_command(args: argparse.Namespace) -> None:  # noqa: PLR0912
     except JSONPathSyntaxError as err:
         if args.debug:
             raise
-        sys.stderr.write(f"json path syntax error: {err}\n")
+        sys.stderr.write(f"json path syntax error: {_one_line(err)}\n")
         sys.exit(1)
     except JSONPathTypeError as err:
         if args.debug:
             raise
-        sys.stderr.write(f"json path type error: {err}\n")
+        sys.stderr.write(f"json path type error: {_one_line(err)}\n")
         sys.exit(1)
     except JSONPathIndexError as err:
         if args.debug:
             raise
-        sys.stderr.write(f"json path index error: {err}\n")
+        sys.stderr.write(f"json path index error: {_one_line(err)}\n")
         sys.exit(1)
     except JSONPathError as err:
         # For example, JSONPathNameError for an unknown function.
         if args.debug:
             raise
-        sys.stderr.write(f"json path error: {err}\n")
+        sys.stderr.write(f"json path error: {_one_line(err)}\n")
         sys.exit(1)
 
     try:
@@ -283,12 +288,12 @@ def handle_path_command(args: argparse.Namespace) -> None:  # noqa: PLR0912
         # Type errors are currently only occurring are compile-time.
         if args.debug:
             raise
-        sys.stderr.write(f"json path type error: {err}\n")
+        sys.stderr.write(f"json path type error: {_one_line(err)}\n")
         sys.exit(1)
     except JSONPathError as err:
         if args.debug:
             raise
-        sys.stderr.write(f"json path error: {err}\n")
+        sys.stderr.write(f"json path error: {_one_line(err)}\n")
         sys.exit(1)
 
     indent = INDENT if args.pretty else None
@@ -319,7 +324,7 @@ def handle_pointer_command(args: argparse.Namespace) -> None:
     except JSONPointerError as err:
         if args.debug:
             raise
-        sys.stderr.write(str(err) + "\n")
+        sys.stderr.write(_one_line(err) + "\n")
         sys.exit(1)
 
     indent = INDENT if args.pretty else None
@@ -357,7 +362,7 @@ def handle_patch_command(args: argparse.Namespace) -> None:
     except JSONPatchError as err:
         if args.debug:
             raise
-        sys.stderr.write(str(err) + "\n")
+        sys.stderr.write(_one_line(err) + "\n")
         sys.exit(1)
 
     indent = INDENT if args.pretty else None
